@@ -25,6 +25,16 @@ EXPLANATION = (
     "the evaluator on expression depth (known finding). NOT decided: that the selected items are those the path denotes; document order.")
 
 
+def norm_len(L):
+    """`i32::try_from(x).unwrap_or(K)` with a constant K >= 1 is at least 1 whenever x is: judge x"""
+    if L[0] == 'call' and canon(L[1]).split('::')[-1] in ('unwrap_or', 'unwrap_or_default', 'unwrap_or_else') and L[2]:
+        tf_ = deref_all(L[2][0])
+        k_ = const_of(L[2][1]) if len(L[2]) > 1 else None
+        if tf_[0] == 'call' and canon(tf_[1]).split('::')[-1] in ('try_from', 'try_into') and tf_[2] and isinstance(k_, int) and k_ >= 1:
+            return strip_casts(deref_all(tf_[2][0]))
+    return L
+
+
 def r08_4(ctx, run, rule='R08.4'):
     f = ctx.facts
     n = 0
@@ -104,6 +114,7 @@ def r08_4(ctx, run, rule='R08.4'):
                     if not (canon(e[1]) == canon(target) and len(e[2]) > pos):
                         continue
                     L = strip_casts(deref_all(e[2][pos]))
+                    L = norm_len(L)
                     pf = PathFacts(q.conds[:e[6]], nonneg=lambda a: True, typed=lambda a: IntervalSet([(0, INF)]))
                     if pf.infeasible():
                         continue
@@ -139,7 +150,7 @@ def r08_4(ctx, run, rule='R08.4'):
                                 if v0 is None:
                                     allok = False
                                     continue
-                                v0 = strip_casts(deref_all(v0))
+                                v0 = norm_len(strip_casts(deref_all(v0)))
                                 pf0 = PathFacts(q0.conds, nonneg=lambda a: True, typed=lambda a: IntervalSet([(0, INF)]))
                                 try:
                                     r0 = pf0.range_of_term(v0)
@@ -147,7 +158,8 @@ def r08_4(ctx, run, rule='R08.4'):
                                     r0 = None
                                 if not (r0 is not None and not r0.empty() and r0.lo() >= 1):
                                     allok = False
-                                    if any(v0 in set(subterms(c[0])) for c in q0.conds):
+                                    at0 = [x_ for x_ in subterms(v0) if x_[0] in ('init', 'hav', 'field', 'len')] or [v0]
+                                    if any(v0 in set(subterms(c[0])) or any(x_ in set(subterms(c[0])) for x_ in at0) for c in q0.conds):
                                         anyguard = True
                             if allok:
                                 verdict.setdefault(line, 'ok')
@@ -158,7 +170,8 @@ def r08_4(ctx, run, rule='R08.4'):
                     if proven:
                         verdict.setdefault(line, 'ok')
                     else:
-                        mentioned = any(L in set(subterms(c[0])) for c in q.conds[:e[6]])
+                        atoms_ = [x_ for x_ in subterms(L) if x_[0] in ('init', 'hav', 'field', 'len')] or [L]
+                        mentioned = any(any(x_ in set(subterms(c[0])) for x_ in atoms_) or L in set(subterms(c[0])) for c in q.conds[:e[6]])
                         # the guard may sit in an earlier region (before a loop head): only a path from the function entry is conclusive
                         if q.blocks and q.blocks[0] == 0 and not mentioned:
                             verdict[line] = 'bad'
